@@ -137,6 +137,11 @@ func bodySchema(f string) M {
 		props["ro"] = M{"type": "string", "readOnly": true, "default": "dro"}
 		props["wo"] = M{"type": "string", "writeOnly": true, "default": "dwo"}
 	}
+	if strings.Contains(f, "t") {
+		// a schema the body must not match (it lacks the required member), with a default of its own:
+		// what is under "not" describes other values, its defaults are not this body's
+		s["not"] = M{"type": "object", "required": []any{"zz"}, "properties": M{"nx": M{"type": "string", "default": "dn"}}}
+	}
 	if strings.Contains(f, "a") {
 		s["allOf"] = []any{M{"type": "object", "properties": M{"a": M{"type": "string", "default": "da"}}}}
 	}
@@ -677,7 +682,7 @@ func gen(t *rapid.T) Case {
 	c.HasBody = rapid.IntRange(0, 4).Draw(t, "hasbody") > 0
 	if c.HasBody {
 		feats := ""
-		for _, f := range "pnoarxydwz" {
+		for _, f := range "pnoarxydwzt" {
 			if rapid.IntRange(0, 2).Draw(t, "feat:"+string(f)) == 0 {
 				feats += string(f)
 			}
